@@ -692,7 +692,9 @@ def run_search_full(tree):
                 and len(n.args) == 1 and ast.unparse(n.args[0]) == 'line':
             cfg['calls'][ast.unparse(n.func)] = 'def_run'
     w = skeleton.Walker(cfg)
-    w.klass, w.module = None, None          # no further inlining
+    # unmapped private helpers with a tail-only return (e.g. an extracted
+    # append-and-flush block) are walked in place by the Walker itself
+    w.klass, w.module = klass, tree
     w.block(fn.body)
     tree_txt = skeleton.to_tree(w.out)
     flat = ";\n   ".join(skeleton.coq_ev(e) for e in w.out)
